@@ -1067,7 +1067,27 @@ def generate(unit, template_text, repo_root, units_dir=None):
         rec["fn"] = fid
         used_consts.setdefault(rel, set()).update(re.findall(r"\b[A-Z][A-Z0-9_]{2,}\b", orig))
     _auto_consts(g, repo_root, used_consts)
+    _spinoff_all(g)
     return g
+
+
+_FN_DEF = re.compile(r"^(\s*)((?:pub(?:\([a-z]+\))? )?(?:(?:proof|exec|unsafe|const) )*fn \w+)")
+
+
+def _spinoff_all(g):
+    """Every exec/proof function gets its own solver process (#[verifier::spinoff_prover], put on the same line so that the line map is
+    unchanged): functions are then checked in parallel and independently - a refuted function cannot slow down or perturb the
+    queries of the functions checked after it (measured: a failing function in the shared solver made the rest of unit `parse` 15x slower)."""
+    for i, l in enumerate(g.lines):
+        m = _FN_DEF.match(l)
+        if not m or "spec fn" in l or re.match(r"^\s*fn main\b", l):
+            continue
+        j = i - 1
+        while j >= 0 and not g.lines[j].strip():
+            j -= 1
+        if j >= 0 and "spinoff_prover" in g.lines[j]:
+            continue
+        g.lines[i] = m.group(1) + "#[verifier::spinoff_prover] " + l[len(m.group(1)):]
 
 
 _SCALAR_TY = r"(?:u8|u16|u32|u64|usize|i8|i16|i32|i64|isize|bool|char)"
